@@ -110,19 +110,20 @@ def main : IO UInt32 := do
   let hdrs : List (List (Str × Str)) := [[], [("X-Forwarded-Host".toList, ['f', 'h'])], [("X-Forwarded-Proto".toList, ['f', 'p'])],
     [("X-Forwarded-Uri".toList, ['/', 'f'])], [("X-Forwarded-Host".toList, ['f', 'h']), ("X-Forwarded-Proto".toList, ['f', 'p']), ("X-Forwarded-Uri".toList, ['/', 'f'])],
     [("X-Forwarded-Host".toList, [])], [("X-Forwarded-Host".toList, ['h'])], [("x-forwarded-host".toList, ['f', 'h'])]]
-  let rcases : List (Bool × List (Str × Str)) := [true, false].flatMap fun rp => hdrs.map fun h => (rp, h)
-  let mkR (h : List (Str × Str)) : O2P.Req := { method := ['G'], path := ['/'], uri := ['/', 'u'], headers := h, host := ['h'], scheme := ['s'] }
-  let mkG (rp : Bool) (h : List (Str × Str)) : Go.Req := { header := (mkR h).header, host := ['h'], urlScheme := ['s'], requestURI := ['/', 'u'], scope := some ⟨rp⟩ }
-  let showRC : Bool × List (Str × Str) → String := fun p => "reverse-proxy=" ++ toString p.1 ++ " headers=" ++ toString (p.2.map fun kv => (String.ofList kv.1, String.ofList kv.2))
+  -- (… and a request WITHOUT a Host, as an HTTP/1.0 client may send it)
+  let rcases : List (Bool × List (Str × Str) × Str) := [true, false].flatMap fun rp => hdrs.flatMap fun h => [(rp, h, ['h']), (rp, h, [])]
+  let mkR (h : List (Str × Str)) (host : Str := ['h']) : O2P.Req := { method := ['G'], path := ['/'], uri := ['/', 'u'], headers := h, host := host, scheme := ['s'] }
+  let mkG (rp : Bool) (h : List (Str × Str)) (host : Str) : Go.Req := { header := (mkR h).header, host := host, urlScheme := ['s'], requestURI := ['/', 'u'], scope := some ⟨rp⟩ }
+  let showRC : Bool × List (Str × Str) × Str → String := fun p => "reverse-proxy=" ++ toString p.1 ++ " Host=" ++ q p.2.2 ++ " headers=" ++ toString (p.2.1.map fun kv => (String.ofList kv.1, String.ofList kv.2))
   bad := bad + (← firstDiff "GetRequestHost" rcases showRC
-    (fun p => showM q (Gen.Tr.GetRequestHost E0 (mkG p.1 p.2))) (fun p => q (requestHost { reverseProxy := p.1 } (mkR p.2))))
+    (fun p => showM q (Gen.Tr.GetRequestHost E0 (mkG p.1 p.2.1 p.2.2))) (fun p => q (requestHost { reverseProxy := p.1 } (mkR p.2.1 p.2.2))))
   bad := bad + (← firstDiff "GetRequestProto" rcases showRC
-    (fun p => showM q (Gen.Tr.GetRequestProto E0 (mkG p.1 p.2))) (fun p => q (requestProto { reverseProxy := p.1 } (mkR p.2))))
+    (fun p => showM q (Gen.Tr.GetRequestProto E0 (mkG p.1 p.2.1 p.2.2))) (fun p => q (requestProto { reverseProxy := p.1 } (mkR p.2.1 p.2.2))))
   bad := bad + (← firstDiff "GetRequestURI" rcases showRC
-    (fun p => showM q (Gen.Tr.GetRequestURI E0 (mkG p.1 p.2))) (fun p => q (requestURI { reverseProxy := p.1 } (mkR p.2))))
+    (fun p => showM q (Gen.Tr.GetRequestURI E0 (mkG p.1 p.2.1 p.2.2))) (fun p => q (requestURI { reverseProxy := p.1 } (mkR p.2.1 p.2.2))))
   bad := bad + (← firstDiff "IsForwardedRequest" rcases showRC
-    (fun p => showM bstr (Gen.Tr.IsForwardedRequest E0 (mkG p.1 p.2))) (fun p => bstr (isForwardedRequest { reverseProxy := p.1 } (mkR p.2))))
-  bad := bad + (← firstDiff "IsProxied(nil scope)" hdrs (fun h => showRC (false, h))
+    (fun p => showM bstr (Gen.Tr.IsForwardedRequest E0 (mkG p.1 p.2.1 p.2.2))) (fun p => bstr (isForwardedRequest { reverseProxy := p.1 } (mkR p.2.1 p.2.2))))
+  bad := bad + (← firstDiff "IsProxied(nil scope)" hdrs (fun h => showRC (false, h, ['h']))
     (fun h => showM bstr (Gen.Tr.IsProxied E0 { header := (mkR h).header, host := ['h'], urlScheme := ['s'], requestURI := ['/', 'u'], scope := none })) (fun _ => "false"))
   -- pkg/encryption
   let secrets : List Str := ((List.range 50).flatMap fun n => [rep 'A' n, rep 'A' n ++ ['='], rep 'A' n ++ ['=', '='], rep 'A' n ++ ['!'], rep '_' n, rep '/' n])
